@@ -28,8 +28,6 @@ type Model struct {
 	Now   int64 // time of the last driven block
 	Block int
 	T     [2]TimerM
-	M     [2][2][2]MarkV // [sub][timer][kind]: last surviving marker write
-	C     [2]int64       // per subscriber: number of signals it handled successfully
 }
 
 type ExpInv struct {
@@ -53,6 +51,8 @@ type Expect struct {
 	Events [4]ExpEvent
 	NEv    int
 	Next   Model
+	M      [2][2][2]MarkV // [sub][timer][kind]: surviving marker writes of this block
+	C      [2]int64       // per subscriber: number of signals it handled successfully in this block
 	// what happened, for the vacuity counters
 	Ticked, Initial [2]bool
 	BeforeStart     bool
@@ -141,12 +141,12 @@ func expect(m Model, timers []TimerCfg, block int, tOff int64, plan []Dev) Expec
 			for sub := 0; sub < 2; sub++ {
 				out := planLookup(plan, ti, kind, sub)
 				ex.Invs[ex.NInv] = ExpInv{Timer: ti, Kind: kind, Sub: sub, Epoch: epoch, Out: out,
-					SeenOther: work.M[1-sub][ti][kind], SeenOwnCnt: work.C[sub]}
+					SeenOther: ex.M[1-sub][ti][kind], SeenOwnCnt: ex.C[sub]}
 				ex.NInv++
 				switch out {
 				case oOK:
-					work.M[sub][ti][kind] = MarkV{Set: true, Block: int32(block), Epoch: epoch}
-					work.C[sub]++
+					ex.M[sub][ti][kind] = MarkV{Set: true, Block: int32(block), Epoch: epoch}
+					ex.C[sub]++
 				case oOOG:
 					return aborted()
 				}
@@ -170,7 +170,7 @@ type Failure struct {
 	Detail    string
 }
 
-func (m *Model) marksDump(nTimers int) []byte {
+func (m *Expect) marksDump(nTimers int) []byte {
 	var b bytes.Buffer
 	for s := 0; s < 2; s++ {
 		if m.C[s] != 0 {
@@ -208,6 +208,31 @@ func storeDump(ctx sdk.Context, key storetypes.StoreKey) []byte {
 	return b.Bytes()
 }
 
+// pointDump reads the same content by point lookups of every key a subscriber can write.
+func pointDump(ctx sdk.Context, key storetypes.StoreKey, nTimers int) []byte {
+	var b bytes.Buffer
+	st := ctx.KVStore(key)
+	put := func(k []byte) {
+		if v := st.Get(k); v != nil {
+			b.Write(k)
+			b.WriteByte('=')
+			b.Write(v)
+			b.WriteByte(';')
+		}
+	}
+	for s := 0; s < 2; s++ {
+		put(cntKeys[s])
+	}
+	for s := 0; s < 2; s++ {
+		for t := 0; t < nTimers; t++ {
+			for k := 0; k < 2; k++ {
+				put(markKeys[s][t][k])
+			}
+		}
+	}
+	return b.Bytes()
+}
+
 func prettyDump(d []byte) string {
 	var parts []string
 	for _, kv := range bytes.Split(d, []byte{';'}) {
@@ -235,7 +260,7 @@ func invString(timers []TimerCfg, t, k, s int, e int64, o int) string {
 }
 
 // Check compares one driven block with the reference. prev is the reference state before the block.
-func Check(w *World, prev Model, ex *Expect, tOff int64, res *BlockResult) []Failure {
+func Check(w *World, prev Model, ex *Expect, tOff int64, res *BlockResult, full bool) []Failure {
 	var fails []Failure
 	fail := func(a, f string, args ...interface{}) {
 		fails = append(fails, Failure{a, fmt.Sprintf(f, args...)})
@@ -329,9 +354,10 @@ func Check(w *World, prev Model, ex *Expect, tOff int64, res *BlockResult) []Fai
 	ctx := res.Ctx
 
 	// --- timers ------------------------------------------------------------------------------
-	all := w.K.AllEpochInfos(ctx)
-	if len(all) != len(timers) {
-		fail("saved", "%d epoch infos stored, %d timers configured", len(all), len(timers))
+	if full {
+		if all := w.K.AllEpochInfos(ctx); len(all) != len(timers) {
+			fail("saved", "%d epoch infos stored, %d timers configured", len(all), len(timers))
+		}
 	}
 	for ti, tc := range timers {
 		p := prev.T[ti]
@@ -405,8 +431,13 @@ func Check(w *World, prev Model, ex *Expect, tOff int64, res *BlockResult) []Fai
 	}
 
 	// --- containment: the subscribers' store holds exactly the surviving writes -----------------
-	want := ex.Next.marksDump(len(timers))
-	have := storeDump(ctx, w.markKey)
+	want := ex.marksDump(len(timers))
+	var have []byte
+	if full {
+		have = storeDump(ctx, w.markKey)
+	} else {
+		have = pointDump(ctx, w.markKey, len(timers))
+	}
 	if !bytes.Equal(want, have) {
 		fail("containment", "subscriber store after the block = %s, surviving writes per reference = %s", prettyDump(have), prettyDump(want))
 	}
